@@ -62,8 +62,8 @@ def ensure_extractor():
         raise AnalysisBroken('extractor build failed:\n' + r.stdout[-3000:])
 
 
-def _extract_one(tu, flags, out, extra_args=()):
-    cmd = [EXTRACTOR, '--root=' + os.path.join(REPO, 'src'), '--out=' + out + '.tmp'] + list(extra_args) + [tu, '--'] + flags
+def _extract_one(tu, flags, out, extra_args=(), root=None):
+    cmd = [EXTRACTOR, '--root=' + (root or os.path.join(REPO, 'src')), '--out=' + out + '.tmp'] + list(extra_args) + [tu, '--'] + flags
     r = subprocess.run(cmd, stdout=subprocess.PIPE, stderr=subprocess.STDOUT, universal_newlines=True)
     if r.returncode != 0 or not os.path.isfile(out + '.tmp'):
         try:
@@ -114,14 +114,14 @@ def extract_all(verbose=False):
     return result, key
 
 
-def extract_file(path, flags=None, extra_args=()):
+def extract_file(path, flags=None, extra_args=(), root=None):
     """extract a single (control / probe) file outside the cache"""
     ensure_extractor()
     cfg = compdb.config_dir()
     flags = flags or compdb.flags_for(path, cfg)
     out = os.path.join(CACHE, 'single_%s_%d.json' % (hashlib.sha256(path.encode()).hexdigest()[:10], os.getpid()))
     os.makedirs(CACHE, exist_ok=True)
-    tu, ok, msg = _extract_one(path, flags, out, extra_args)
+    tu, ok, msg = _extract_one(path, flags, out, extra_args, root)
     if not ok:
         raise AnalysisBroken('extractor failed on %s:\n%s' % (path, msg))
     with open(out) as fh:
@@ -560,6 +560,31 @@ class Fn(object):
                 return [('(%s == %s)' % (l, r), True)]
             return [('(%s %s %s)' % (l, op, r), True)]
         return [(self.key(c), pol)]
+
+    def edges_with_atom(self, key, pol=True):
+        """CFG edges (block, succ index) taken exactly when the atom `key` has truth value `pol`"""
+        out = []
+        for b in self.blocks.values():
+            if b.cond is None or b.tk == 'SwitchStmt' or len(b.succs) != 2:
+                continue
+            c = self.effective_cond(b.id)
+            for j in (0, 1):
+                for a in self.norm_atom(c, j == 0):
+                    if a[0] == key and a[1] == pol and b.succs[j] is not None:
+                        out.append((b.id, j))
+        return out
+
+    def needs_one_of(self, nid, atom_list, frm=None):
+        """every path from the entry (or block frm) to nid takes an edge on which one of the atoms
+        (key, polarity) holds (a disjunctive guard such as `a || b`)"""
+        blk = self.block_of(nid)
+        cut = []
+        for k, p in atom_list:
+            cut += self.edges_with_atom(k, p)
+        if not cut:
+            return False
+        start = self.entry if frm is None else frm
+        return blk not in self.reach([start], cut_edges=cut)
 
     def has_atom(self, atoms, key, pol=True):
         for a in atoms:
@@ -1034,3 +1059,36 @@ class Explorer(object):
                         out.append('L%d: [%s] is %s' % (fn.line_of(c), fn.text(c), 'true' if j == 0 else 'false'))
             prev = b
         return out
+
+
+_MACRO_CACHE = {}
+
+
+def macro_values(headers, names):
+    """evaluate preprocessor macros of repository headers to integers through a generated probe translation unit
+    (static const unsigned long long P_<name> = (<name>);) run through the same extractor"""
+    key = (tuple(headers), tuple(names), _tree_hash())
+    if key in _MACRO_CACHE:
+        return _MACRO_CACHE[key]
+    os.makedirs(CACHE, exist_ok=True)
+    pdir = os.path.join(CACHE, 'probe_%d' % os.getpid())
+    os.makedirs(pdir, exist_ok=True)
+    path = os.path.join(pdir, 'probe.cpp')
+    with open(path, 'w') as fh:
+        for h in headers:
+            fh.write('#include "%s"\n' % h)
+        fh.write('namespace ebusd_probe {\n')
+        for n in names:
+            fh.write('#ifdef %s\nstatic const unsigned long long P_%s = (unsigned long long)(%s);\n#endif\n' % (n, n, n))
+        fh.write('}\n')
+    try:
+        d = extract_file(path, root=pdir)
+    finally:
+        shutil.rmtree(pdir, ignore_errors=True)
+    res = {}
+    for g in d.get('globals', []):
+        nm = g['name'].split('::')[-1]
+        if nm.startswith('P_') and isinstance(g.get('init'), int):
+            res[nm[2:]] = g['init']
+    _MACRO_CACHE[key] = res
+    return res
